@@ -2190,6 +2190,85 @@ def _yields_ok(tags, expected, probs):
 # ---------------------------------------------------------------------------
 
 
+def rule7(ctx, rep):
+    """names are derived from the live configuration (added after seeded change C09-5: util.names hoisted
+    len(dawgie.context.ae_base_package.split('.')) into a module constant evaluated at import; context.override and
+    the worker entry point assign the package afterwards, so task names of a dotted base package kept one element
+    too many and the algorithm tree collapsed to one node per task)"""
+    prog = ctx.prog
+    with rep.rule(
+        'R-C09-7',
+        'no importable module captures, at import time, a dawgie.context setting that is assigned again at run time: the modules that name tasks and build the graph read the configuration when called',
+        floor=1,
+        breaks='task / algorithm names are computed from the configuration that was current when the module was imported, not from the one the pipeline runs with: nodes merge or vanish',
+    ) as r:
+        CTX = 'dawgie.context'
+        # settings with a run-time writer (an assignment inside a function, or in another module)
+        runtime = set()
+        for fn in prog.funcs.values():
+            for s_ in fn.own_nodes():
+                tg = s_.targets if isinstance(s_, ast.Assign) else ([s_.target] if isinstance(s_, (ast.AugAssign, ast.AnnAssign)) else [])
+                for t in tg:
+                    if isinstance(t, ast.Attribute):
+                        sym = prog.resolve_in(t, fn) or ''
+                        if sym.startswith(CTX + '.'):
+                            runtime.add(sym)
+        for m in prog.modules.values():
+            if m.name == CTX:
+                continue
+            for s_ in m.tree.body:
+                tg = s_.targets if isinstance(s_, ast.Assign) else ([s_.target] if isinstance(s_, (ast.AugAssign, ast.AnnAssign)) else [])
+                for t in tg:
+                    if isinstance(t, ast.Attribute) and isinstance(t.value, ast.Attribute) and norm(t.value) == CTX:
+                        runtime.add(CTX + '.' + t.attr)
+        if CTX + '.ae_base_package' not in runtime:
+            raise AnalysisError('no run-time writer of dawgie.context.ae_base_package found (context.override / worker entry point)')
+        r.extra['settings_assigned_at_run_time'] = len(runtime)
+
+        def import_time(body):
+            """statements executed when the module is imported (not under `if __name__ == '__main__'`, not function bodies)"""
+            for s_ in body:
+                if isinstance(s_, (ast.FunctionDef, ast.AsyncFunctionDef)):
+                    continue
+                if isinstance(s_, ast.If) and '__name__' in norm(s_.test) and '__main__' in norm(s_.test):
+                    continue
+                if isinstance(s_, ast.ClassDef):
+                    yield from import_time(s_.body)
+                    continue
+                yield s_
+
+        scope = ('dawgie.util', 'dawgie.pl.dag', 'dawgie.pl.scan', 'dawgie.pl.schedule', 'dawgie.pl.version', 'dawgie.base', 'dawgie')
+        n = 0
+        for m in sorted(prog.modules.values(), key=lambda x: x.name):
+            if m.name.endswith('__main__') or not (m.name in scope or m.name.startswith('dawgie.util.')):
+                continue
+            n += 1
+            for s_ in import_time(m.tree.body):
+                for x in ast.walk(s_):
+                    if isinstance(x, (ast.FunctionDef, ast.AsyncFunctionDef, ast.Lambda)):
+                        continue
+                    if isinstance(x, ast.Attribute) and isinstance(x.ctx, ast.Load) and isinstance(x.value, (ast.Attribute, ast.Name)) and norm(x.value) in (CTX, 'context'):
+                        sym = CTX + '.' + x.attr
+                        if sym in runtime and not _inside_deferred(s_, x):
+                            r.instance()
+                            r.fail(
+                                f'{m.name}:import-time:{x.attr}',
+                                f'{m.relpath}:{s_.lineno}',
+                                f'{m.name} evaluates {norm(x)} when it is imported ({norm(s_)[:80]}); context.override / the worker entry point assign it later, so the captured value is stale',
+                            )
+        for _ in range(n):
+            r.instance()
+        r.ok('graph-naming-modules:no-import-time-capture', f'{n} modules on the naming / graph construction path read the configuration only inside functions')
+
+
+def _inside_deferred(stmt, node):
+    """node sits inside a lambda / nested def of the statement (evaluated later, not at import)"""
+    for x in ast.walk(stmt):
+        if isinstance(x, (ast.Lambda, ast.FunctionDef, ast.AsyncFunctionDef)) and any(y is node for y in ast.walk(x)):
+            return True
+    return False
+
+
 def check(ctx):
     rep = Report(
         PID,
@@ -2228,6 +2307,7 @@ def check(ctx):
     rule4(ctx, rep, fx)
     rule5(ctx, rep, fx)
     rule6(ctx, rep, fx)
+    rule7(ctx, rep)
     return rep
 
 
@@ -2296,6 +2376,8 @@ _THREE_NEW = """def _sub(self, a, fn, dep):
         self._sub(a, fn, 'previous')"""
 
 VARIANTS = [
+    V('base package depth captured at import', 'B', 'util/names.py', None, 'import logging', "import logging\n\n_AE_DEPTH = len(dawgie.context.ae_base_package.split('.'))", 'R-C09-7'),
+    V('module constant unrelated to the configuration', 'N', 'util/names.py', None, 'import logging', "import logging\n\n_SEP = '.'", None),
     # ---- breaking
     V('edge reversed in one sibling', 'B', _D, 'Construct._sub_task', 'self._flat[pn].add(self._flat[fn])', 'self._flat[fn].add(self._flat[pn])', 'R-C09-1'),
     V('one sibling uses feedback() as inputs (edge rule)', 'B', _D, 'Construct._sub_regression', 'a.variables()', 'a.feedback()', 'R-C09-1'),
